@@ -23,6 +23,9 @@ def build_binary(ctx, app):
 HANGS = [0]
 
 
+NODIR = [0]
+
+
 def run_filter_binary(ctx, binary, case, n):
     """One run of the built rtcmfilter over OS pipes; returns an event like the overlay test's."""
     d = ctx.path("bin%d" % n)
@@ -30,8 +33,15 @@ def run_filter_binary(ctx, binary, case, n):
     logdir = os.path.join(d, "msglog")
     os.makedirs(logdir)
     cfg = os.path.join(d, "cfg.json")
+    conf = {"display_messages": case["display"], "record_messages": case["record"], "log_directory": logdir}
+    if case["display"] or case["record"]:
+        NODIR[0] += 1
+        if NODIR[0] % 2 == 0:
+            # configuration corner: no log directory is configured - the files belong in the working directory
+            del conf["log_directory"]
+            logdir = d
     with open(cfg, "w") as f:
-        json.dump({"display_messages": case["display"], "record_messages": case["record"], "log_directory": logdir}, f)
+        json.dump(conf, f)
     data = bytes(case["in"])
     rng = random.Random(case["seed"])
     day1 = datetime.date.today().isoformat()
